@@ -2,7 +2,7 @@
 contract modules that must be loaded to decide it."""
 PROPS = {
     'C12': ['contracts.c12_cbc_check', 'contracts.recordlayer'],
-    'C01': ['contracts.c12_cbc_check', 'contracts.recordlayer', 'contracts.sendmsg', 'contracts.m2_posthandshake', 'contracts.m2_recordio'],
+    'C01': ['contracts.c12_cbc_check', 'contracts.recordlayer', 'contracts.sendmsg', 'contracts.m2_posthandshake', 'contracts.m2_recordio', 'contracts.transport'],
     'C02': ['contracts.c12_cbc_check', 'contracts.recordlayer', 'contracts.m2_recordlayer', 'contracts.m2_recordio', 'contracts.m2_getmsg', 'contracts.defragmenter'],
     'C18': ['contracts.sessioncache'],
     'C19': ['contracts.settings', 'contracts.m2_server'],
@@ -14,10 +14,10 @@ PROPS = {
     'C13': ['contracts.m2_client', 'contracts.m2_posthandshake', 'contracts.m2_server'],
     'C09': ['contracts.kdf'],
     'C15': ['contracts.codec', 'contracts.messages_simple'],
-    'C08': ['contracts.codec', 'contracts.messages_simple', 'contracts.m2_recordlayer', 'contracts.m2_getmsg', 'contracts.m2_posthandshake', 'contracts.m2_recordio', 'contracts.m2_server'],
-    'C14': ['contracts.m2_recordlayer', 'contracts.m2_getmsg', 'contracts.defragmenter'],
+    'C08': ['contracts.codec', 'contracts.messages_simple', 'contracts.m2_recordlayer', 'contracts.m2_getmsg', 'contracts.m2_posthandshake', 'contracts.m2_recordio', 'contracts.m2_server', 'contracts.transport'],
+    'C14': ['contracts.m2_recordlayer', 'contracts.m2_getmsg', 'contracts.defragmenter', 'contracts.transport'],
     'C16': ['contracts.m2_recordlayer', 'contracts.m2_getmsg', 'contracts.m2_posthandshake', 'contracts.sendmsg'],
-    'C17': ['contracts.m2_recordlayer', 'contracts.m2_getmsg', 'contracts.m2_posthandshake'],
+    'C17': ['contracts.m2_recordlayer', 'contracts.m2_getmsg', 'contracts.m2_posthandshake', 'contracts.transport'],
     'C11': ['contracts.c12_cbc_check', 'contracts.rsa', 'contracts.m2_server'],
     'C10': ['contracts.c12_cbc_check', 'contracts.rsa', 'contracts.kex'],
 }
